@@ -23,8 +23,8 @@ RULE = ('cases = generated chains of 2-4 concurrent writers (sequential interlea
         'non-trivial = a resolution that ran with old != committed != new and >= 1 reference in the state; distinct by case hash')
 ASSUMPTIONS = ['the module-level caches of ZODB.ConflictResolution are cleared at the top of every case',
                'the undo path of resolution is exercised numerically in C06']
-BUDGET = {'quick': {'examples': 8000, 'workers': 8},
-          'thorough': {'examples': 80000, 'workers': 16}}
+BUDGET = {'quick': {'examples': 12000, 'workers': 8},
+          'thorough': {'examples': 100000, 'workers': 16}}
 
 # ('any': the format of the reference under this key depends on the generated index - one key can hold an ordinary
 # reference in one state and a weak or cross-database one, to an object with the same id, in another)
